@@ -27,7 +27,7 @@ SCOEFS = ["CL1", "CDi", "CDv", "CDw", "CL", "CD"]
 def cases(tier, seed):
     rng = np.random.default_rng(6000 + seed)
     out = []
-    n = 28 if tier == "quick" else 240
+    n = 28 if tier == "quick" else 720
     for k in range(n):
         mode = ["plain", "sym", "ground", "compressible", "rotational", "sym"][k % 6]
         symc = mode in ("sym", "ground")
@@ -53,7 +53,7 @@ def cases(tier, seed):
             flow["omega"] = [float(x) for x in np.round(rng.uniform(-0.3, 0.3, 3), 4)]
         out.append(dict(kind="laws", mode=mode, surfaces=surfs, flow=flow, a=float(10 ** rng.uniform(-2, 2)), b=float(10 ** rng.uniform(-2, 2)),
                         k=float(10 ** rng.uniform(-2, 2)), t=[float(x) for x in rng.normal(size=3) * 10 ** rng.uniform(0, 3)], _cost=6 * ns))
-    n = 4 if tier == "quick" else 20
+    n = 4 if tier == "quick" else 60
     for k in range(n):
         symc = bool(k % 2)
         spec = M.random_spec(rng, half="left" if symc else "full", nx=int(rng.integers(2, 4)), ny=int(rng.integers(3, 7)))
